@@ -34,6 +34,17 @@ NEG = {'==': '!=', '!=': '==', '<': '>=', '<=': '>', '>': '<=', '>=': '<'}
 FLIP = {'<': '>', '>': '<', '<=': '>=', '>=': '<=', '==': '==', '!=': '!='}
 
 
+def pow2_exponent(e):
+    """Exponent node of pow(2, E) / 2 ** E / 1 << E, else None."""
+    if isinstance(e, ast.Call) and call_name(e) == 'pow' and len(e.args) == 2 and const_num(e.args[0]) == 2:
+        return e.args[1]
+    if isinstance(e, ast.BinOp) and isinstance(e.op, ast.Pow) and const_num(e.left) == 2:
+        return e.right
+    if isinstance(e, ast.BinOp) and isinstance(e.op, ast.LShift) and const_num(e.left) == 1:
+        return e.right
+    return None
+
+
 def rel_methods(P, cls='PCBO'):
     out = {}
     for r in RELS:
@@ -178,17 +189,29 @@ def rules(ctx):
                 facts += compare_atoms(t, pol)
             ws = []
             for n in ast.walk(loop):
-                if isinstance(n, ast.IfExp) and 'pow(2' in src(n):
+                if isinstance(n, ast.IfExp) and any(pow2_exponent(x) is not None for x in (n.body, n.orelse)):
                     ws.append(canon(n))
             if ws:
                 for w in ws:
-                    okw = src(w.test) == flag and 'pow(2' in src(w.body) and const_num(w.orelse) == 1
+                    okw = src(w.test) == flag and pow2_exponent(w.body) is not None and const_num(w.orelse) == 1
                     ctx.inst('R02.7', fn, w, okw,
                              "weight 2**i under the flag, 1 otherwise" if okw else
                              "slack weight `%s` is not selected by the same flag as the bit count" % src(w))
+                    # binary weights 2**i with i the loop index counting from 0: the register then covers every
+                    # value 0 .. 2**n - 1 that num_bits sized it for
+                    b_ = w.body
+                    iv = src(loop.target)
+                    expo = pow2_exponent(b_)
+                    from0 = isinstance(loop.iter, ast.Call) and is_name(loop.iter.func, 'range') and len(loop.iter.args) == 1
+                    oke = expo is not None and src(expo) == iv and from0
+                    ctx.inst('R02.7', fn, b_, oke,
+                             "weight of slack bit %s is 2**%s, %s = 0, 1, .." % (iv, iv, iv) if oke else
+                             "log-trick slack weight `%s` over `%s` is not 2**%s for %s = 0, 1, ..: some slack values "
+                             "between 0 and the bound cannot be represented, feasible assignments keep a positive penalty"
+                             % (src(b_), src(loop.iter)[:40], iv, iv))
             else:
                 unary = ('falsy', flag) in facts
-                powuse = any('pow(2' in src(n) for n in ast.walk(loop) if isinstance(n, ast.Call))
+                powuse = any(pow2_exponent(n) is not None for n in ast.walk(loop))
                 okw = unary and not powuse
                 ctx.inst('R02.7', fn, loop, okw,
                          "unit weights under `not log_trick`" if okw else
